@@ -22,6 +22,7 @@ from .read import HEADER_SCHEMA, SYNC_SIZE, MAGIC, reader
 from .logical_writers import LOGICAL_WRITERS
 from .schema import extract_record_type, extract_logical_type, parse_schema
 from ._write_common import _is_appendable
+from ._schema_common import inline_separately_parsed_types
 from .types import Schema, NamedSchemas
 
 
@@ -469,30 +470,35 @@ class GenericWriter(ABC):
         if schema is not None:
             self.schema = parse_schema(schema, self._named_schemas)
 
-        if isinstance(schema, dict):
+        # The schema stored with the data has to be usable on its own: drop
+        # the markers of parse_schema and define the named types that were
+        # parsed separately (and are only referred to by name) at first use
+        if isinstance(schema, dict) and "__named_schemas" in schema:
+            schema = inline_separately_parsed_types(schema, schema["__named_schemas"])
+        elif isinstance(schema, dict):
             schema = {
                 key: value
                 for key, value in schema.items()
                 if key not in ("__fastavro_parsed", "__named_schemas")
             }
         elif isinstance(schema, list):
-            schemas = []
-            for s in schema:
-                if isinstance(s, dict):
-                    schemas.append(
-                        {
-                            key: value
-                            for key, value in s.items()
-                            if key
-                            not in (
-                                "__fastavro_parsed",
-                                "__named_schemas",
-                            )
-                        }
-                    )
-                else:
-                    schemas.append(s)
-            schema = schemas
+            if all("__fastavro_parsed" in s for s in schema if isinstance(s, dict)):
+                parsed_names = {}
+                for s in schema:
+                    if isinstance(s, dict):
+                        parsed_names.update(s.get("__named_schemas", {}))
+                schema = inline_separately_parsed_types(schema, parsed_names)
+            else:
+                schema = [
+                    {
+                        key: value
+                        for key, value in s.items()
+                        if key not in ("__fastavro_parsed", "__named_schemas")
+                    }
+                    if isinstance(s, dict)
+                    else s
+                    for s in schema
+                ]
 
         self.metadata["avro.schema"] = json.dumps(schema)
 
